@@ -100,6 +100,10 @@ func lineKind(l string) string {
 		return "q"
 	case strings.HasPrefix(l, "inv "):
 		return "inv"
+	case strings.HasPrefix(l, "sg "):
+		return "sg"
+	case strings.HasPrefix(l, "md "):
+		return "md"
 	}
 	return "other"
 }
